@@ -293,7 +293,7 @@ func c19RunConcurrent(t *testing.T, r *vlib.Run, n int) {
 			js := fmt.Sprintf(`{"retryThrottling":{"maxTokens":1000,"tokenRatio":%s},"methodConfig":[{"name":[{"service":"c19"}]}]}`, ratio)
 			cc, rt, err := c19Channel(js)
 			if err != nil || rt == nil {
-				viol = append(viol, [2]string{"harness", fmt.Sprintf("channel: %v %v", err, rt)})
+				viol = append(viol, [2]string{"valid-throttling-config-rejected", fmt.Sprintf("channel with %s: err=%v throttler=%v", js, err, rt)})
 				return
 			}
 			defer func() { cc.Close(); synctest.Wait() }()
